@@ -554,6 +554,56 @@ func c08handlers(c *Ctx) {
 		}
 		unitOK, nCap := true, 0
 		var uwhy []string
+		// the builtin form of the cap: min(product, limit) under limit > 0
+		for _, cl := range an.Calls(fn, false) {
+			call, isCall := cl.(*ssa.Call)
+			if !isCall || !an.IsBuiltinCall(call, "min") || len(call.Call.Args) != 2 {
+				continue
+			}
+			px, ly := call.Call.Args[0], call.Call.Args[1]
+			la := accessorAlts(ly, lim)
+			qa := productAlts(px, 0)
+			if la == nil || qa == nil {
+				px, ly = ly, px
+				la = accessorAlts(ly, lim)
+				qa = productAlts(px, 0)
+			}
+			if la == nil || qa == nil {
+				continue
+			}
+			nCap += len(la)
+			agree := len(la) == len(qa)
+			if agree {
+				for k := range la {
+					found := false
+					for m := range qa {
+						if qa[m].from == la[k].from && qa[m].acc == la[k].acc {
+							found = true
+						}
+					}
+					if !found {
+						agree = false
+					}
+				}
+			}
+			if !agree {
+				unitOK = false
+				uwhy = append(uwhy, sprintf("%s: product in %v, cap in %v", c.InstrPos(call), qa, la))
+			}
+			lv := firstSource(ly)
+			pos := false
+			for _, g := range an.Guards(call) {
+				if rel, ok := an.RelOf(g); ok && firstSource(rel.X) == lv {
+					if k, isC := constIntOf(rel.Y); isC && ((rel.Op == token.GTR && k == 0) || (rel.Op == token.GEQ && k == 1) || (rel.Op == token.NEQ && k == 0)) {
+						pos = true
+					}
+				}
+			}
+			if !pos {
+				unitOK = false
+				uwhy = append(uwhy, sprintf("%s: min(estimate, limit) is not under limit > 0", c.InstrPos(call)))
+			}
+		}
 		for _, b := range fn.Blocks {
 			for _, in := range b.Instrs {
 				bo, ok := in.(*ssa.BinOp)
